@@ -2373,9 +2373,12 @@ private:
             spin_mutex::scoped_lock lock(my_mutex);
             --my_tries;
             if (check_conditions() && is_graph_active(this->my_graph)) {
+                // The message was rejected: the put has to report that, so the forwarding task
+                // cannot be returned in place of the result; spawn it instead
                 d1::small_object_allocator allocator{};
                 typedef forward_task_bypass<limiter_node<T, DecrementType>> task_type;
-                rtask = allocator.new_object<task_type>(my_graph, allocator, *this);
+                graph_task* ftask = allocator.new_object<task_type>(my_graph, allocator, *this);
+                spawn_in_graph_arena(graph_reference(), *ftask);
             }
         }
         else {
